@@ -161,7 +161,7 @@ func checkBalloons(e *executor, r *stepResult) *vfkit.Violation {
 			delete(lost, c.ID)
 		} else if had[c.ID] {
 			had[c.ID] = false
-			lost[c.ID] = r.Handler
+			lost[c.ID] = r.lostBy(c.ID)
 		}
 	}
 	// balloons as advertised (zones) must agree with the white-box view
